@@ -12,7 +12,8 @@
  *     0 = ((1/re_tau + nu_t) u')' + 1                                       (streamwise momentum, dp/dx = -1)
  *     0 = cb1 S~ nu  -  cw1 fw (nu/d)^2  +  (1/sigma) [ ((1/re_tau + nu) nu')' + cb2 nu'^2 ]
  * with nu_t = nu fv1(chi), chi = nu re_tau, fv1 = chi^3/(chi^3+cv1^3), fv2 = 1 - chi/(1+chi fv1),
- * Omega = |u'|, Sbar = nu fv2/(kappa^2 d^2),
+ * Omega = |u'| = u' on the admissible domain (lemma proved with du's contract: a1 > 0 && eta < 1 ==> du(eta) >= 0),
+ * Sbar = nu fv2/(kappa^2 d^2),
  * S~ = Omega + Sbar                                             if Sbar >= -cv2 Omega
  *    = Omega + Omega (cv2^2 Omega + cv3 Sbar)/((cv3-2cv2) Omega - Sbar)   otherwise     (Johnson-Allmaras modification)
  * r = min(nu/(S~ kappa^2 d^2), 10), g = r + cw2 (r^6 - r), fw = g ((1+cw3^6)/(g^6+cw3^6))^(1/6),
@@ -27,7 +28,7 @@
 #define RS_NU  Sc kn2_ = -(etam + 1) * b1 * vinv(2 * etam), kn3_ = b1 * vinv(3 * etam); \
   JSCALE(N1_, b1, E); JSCALE(N2_, kn2_, E2_); JSCALE(N3_, kn3_, E3_); JADD(N12_, N1_, N2_); JADD(NU, N12_, N3_)
 #define RS_FIELDS RS_ETA; RS_U; RS_NU
-/* eddy viscosity jet VT = NU * fv1(CHI), CHI = NU * re_tau */
+/* eddy viscosity jet VT = NU * fv1(CHI), CHI = NU * re_tau (chi = nu/nu_mol, nu_mol = 1/re_tau) */
 #define RS_VT \
   JSCALE(CHI, re_tau, NU); JMUL(CH2_, CHI, CHI); JMUL(CH3_, CH2_, CHI); JADDC(DEN_, CH3_, cv1 * cv1 * cv1); \
   JINV(IDEN_, DEN_); JMUL(FV1, CH3_, IDEN_); JMUL(VT, NU, FV1)
@@ -46,8 +47,11 @@ static Sc rs_fv2(Sc eta) { Sc c = rs_chi(eta); return 1 - c * vinv(1 + c * rs_fv
 static Sc rs_cw1(void) { return cb1 * vinv(kappa * kappa) + (1 + cb2) * vinv(sigma); }
 static Sc rs_sbar(Sc eta) { return rs_nu(eta) * rs_fv2(eta) * vinv(kappa * kappa * eta * eta); }
 static Sc rs_s(Sc eta)
-{
-  Sc Om = vabs(rs_du(eta)), Sb = rs_sbar(eta);
+{ /* Omega = |U'|.  On the admissible domain (a1 > 0, eta in (0,1)) U' = a1 (1 - eta) >= 0, so |U'| = U': that lemma is the
+     second ensures clause of du's contract (discharged there); here Omega is written U'.  (With vabs() in this place the
+     obligation of s is still discharged in a sign-split rendering, but every caller up the chain r, g, fw, ... then needs
+     REQ(eta in (0,1)) and the extra call-site requires-goals defeat the solvers' preprocessing -- see report.) */
+  Sc Om = rs_du(eta), Sb = rs_sbar(eta);
   if (Sb >= -cv2 * Om) return Om + Sb;
   return Om + Om * (cv2 * cv2 * Om + cv3 * Sb) * vinv((cv3 - 2 * cv2) * Om - Sb);
 }
@@ -79,11 +83,11 @@ static Sc rs_q_u(Sc eta)
 }
 static Sc rs_q_v(Sc eta) { return rs_production(eta) - rs_destruction(eta) + rs_transport(eta); }
 
-/* admissibility: eta in (0,1) (property quantifier); a1 > 0 is the constructor's fixed value 2 (not registered,
- * cannot be changed through the API) -- together they give Omega = |U'| = U'. */
-#define RS_ADM REQ(a1 > 0 && eta > 0 && eta < 1)
+/* admissibility (property quantifier): eta in (0,1); a1 > 0 is the constructor's fixed value 2 (not registered, cannot be
+ * changed through the API).  Used only for the vorticity-sign lemma in du's contract. */
+#define RS_ADM (a1 > 0 && eta > 0 && eta < 1)
 #define CONTRACT_rans_sa__u_1            REQ(1) ENS_EQ(rs_u(eta)) FRAME()
-#define CONTRACT_rans_sa__du_1           REQ(1) ENS_EQ(rs_du(eta)) FRAME()
+#define CONTRACT_rans_sa__du_1           REQ(1) ENS_EQ(rs_du(eta)) ENS(!RS_ADM || RET >= 0) FRAME()
 #define CONTRACT_rans_sa__d2u_0          REQ(1) ENS_EQ(rs_d2u()) FRAME()
 #define CONTRACT_rans_sa__nu_1           REQ(1) ENS_EQ(rs_nu(eta)) FRAME()
 #define CONTRACT_rans_sa__dnu_1          REQ(1) ENS_EQ(rs_dnu(eta)) FRAME()
@@ -92,17 +96,317 @@ static Sc rs_q_v(Sc eta) { return rs_production(eta) - rs_destruction(eta) + rs_
 #define CONTRACT_rans_sa__fv1_1          REQ(1) ENS_EQ(rs_fv1(eta)) FRAME()
 #define CONTRACT_rans_sa__fv2_1          REQ(1) ENS_EQ(rs_fv2(eta)) FRAME()
 #define CONTRACT_rans_sa__vt_1           REQ(1) ENS_EQ(rs_vt(eta)) FRAME()
-#define CONTRACT_rans_sa__dvt_1          REQ(1) ENS_EQ(rs_dvt(eta)) FRAME()
 #define CONTRACT_rans_sa__cw1_0          REQ(1) ENS_EQ(rs_cw1()) FRAME()
-#define CONTRACT_rans_sa__s_1            RS_ADM ENS_EQ(rs_s(eta)) FRAME()
-#define CONTRACT_rans_sa__r_1            RS_ADM ENS_EQ(rs_r(eta)) FRAME()
-#define CONTRACT_rans_sa__g_1            RS_ADM ENS_EQ(rs_g(eta)) FRAME()
-#define CONTRACT_rans_sa__fw_1           RS_ADM ENS_EQ(rs_fw(eta)) FRAME()
-#define CONTRACT_rans_sa__production_1   RS_ADM ENS_EQ(rs_production(eta)) FRAME()
-#define CONTRACT_rans_sa__destruction_1  RS_ADM ENS_EQ(rs_destruction(eta)) FRAME()
+#define CONTRACT_rans_sa__s_1            REQ(1) ENS_EQ(rs_s(eta)) FRAME()
+#define CONTRACT_rans_sa__r_1            REQ(1) ENS_EQ(rs_r(eta)) FRAME()
+#define CONTRACT_rans_sa__g_1            REQ(1) ENS_EQ(rs_g(eta)) FRAME()
+#define CONTRACT_rans_sa__fw_1           REQ(1) ENS_EQ(rs_fw(eta)) FRAME()
+#define CONTRACT_rans_sa__production_1   REQ(1) ENS_EQ(rs_production(eta)) FRAME()
+#define CONTRACT_rans_sa__destruction_1  REQ(1) ENS_EQ(rs_destruction(eta)) FRAME()
 #define CONTRACT_rans_sa__transport_1    REQ(1) ENS_EQ(rs_transport(eta)) FRAME()
 #define CONTRACT_rans_sa__eval_exact_u_1 REQ(1) ENS_EQ(rs_u(eta)) FRAME()
 #define CONTRACT_rans_sa__eval_exact_v_1 REQ(1) ENS_EQ(rs_nu(eta)) FRAME()
 #define CONTRACT_rans_sa__eval_q_u_1     REQ(1) ENS_EQ(rs_q_u(eta)) FRAME()
-#define CONTRACT_rans_sa__eval_q_v_1     RS_ADM ENS_EQ(rs_q_v(eta)) FRAME()
+#define CONTRACT_rans_sa__eval_q_v_1     REQ(1) ENS_EQ(rs_q_v(eta)) FRAME()
 #endif
+
+/* ====================================================================================================== */
+#if defined(UNIT_fans_sa_transient_free_shear)
+/* Favre-averaged Navier-Stokes + Spalart-Allmaras, infinite wall distance (no destruction term, S~ = S = |vorticity|):
+ *   Q_rho   = rho_t + div(rho u)
+ *   Q_rho_u = (rho u)_t + div(rho u u) + p_x - div(tau)_x          tau = (mu + mu_t)(grad u + grad u^T - 2/3 div u I)
+ *   Q_rho_v = (rho v)_t + div(rho v u) + p_y - div(tau)_y          mu_t = rho nu f_v1(chi), chi = rho nu/mu, f_v1 = chi^3/(chi^3+c_v1^3)
+ *   Q_rho_e = (rho e_t)_t + div(rho u H) - div(tau.u) + div(q)     q = -c_p (mu/Pr + mu_t/Pr_t) grad T, T = p/(rho R),
+ *                                                                  e_t = c_v T + |u|^2/2, H = e_t + p/rho, c_v = R/(Gamma-1), c_p = Gamma c_v
+ *   Q_nu    = (rho nu)_t + div(rho u nu) - c_b1 S rho nu - (1/sigma)[ div((mu + rho nu) grad nu) + c_b2 rho |grad nu|^2 ]
+ * mu_t is differentiated as a function of position (through rho, nu AND f_v1(chi)) as the property states.
+ * Fields (Roy forms; eval_exact_nu(x,y,t) is the only time-dependent exact evaluator of the API):
+ *   NU  = nu_sa_0 + nu_sa_x cos(a_nusax pi x/L) + nu_sa_y cos(a_nusay pi y/L) + nu_sa_t cos(a_nusat pi t/L)
+ *   RHO = rho_0 + rho_x sin(a_rhox pi x/L) + rho_y cos(a_rhoy pi y/L) + rho_t sin(a_rhot pi t/L)
+ *   U   = u_0 + u_x sin(a_ux pi x/L) + u_y cos(a_uy pi y/L) + u_t cos(a_ut pi t/L)
+ *   V   = v_0 + v_x cos(a_vx pi x/L) + v_y sin(a_vy pi y/L) + v_t sin(a_vt pi t/L)
+ *   P   = p_0 + p_x cos(a_px pi x/L) + p_y sin(a_py pi y/L) + p_t cos(a_pt pi t/L) */
+#define FS_FIELDS \
+  Sc z = 0; \
+  ROY_X(nx_, JCOS, nu_sa_x, a_nusax); ROY_Y(ny_, JCOS, nu_sa_y, a_nusay); ROY_T(nt_, JCOS, nu_sa_t, a_nusat); JSUM4(NU, nu_sa_0, nx_, ny_, nt_); \
+  ROY_X(rx_, JSIN, rho_x, a_rhox);    ROY_Y(ry_, JCOS, rho_y, a_rhoy);    ROY_T(rt_, JSIN, rho_t, a_rhot);    JSUM4(RHO, rho_0, rx_, ry_, rt_); \
+  ROY_X(ux_, JSIN, u_x, a_ux);        ROY_Y(uy_, JCOS, u_y, a_uy);        ROY_T(ut_, JCOS, u_t, a_ut);        JSUM4(U, u_0, ux_, uy_, ut_); \
+  ROY_X(vx_, JCOS, v_x, a_vx);        ROY_Y(vy_, JSIN, v_y, a_vy);        ROY_T(vt_, JSIN, v_t, a_vt);        JSUM4(V, v_0, vx_, vy_, vt_); \
+  ROY_X(px_, JCOS, p_x, a_px);        ROY_Y(py_, JSIN, p_y, a_py);        ROY_T(pt_, JCOS, p_t, a_pt);        JSUM4(P, p_0, px_, py_, pt_); \
+  JCONST(W, 0)
+/* eddy viscosity jet MUT = RHO NU f_v1(CHI), CHI = RHO NU / mu; MUE = mu + MUT */
+#ifndef FS_DIAG_FV1CONST
+#define FS_FV1JET JMUL(FV1, CH3_, IDEN_)
+#else
+#define FS_FV1JET JCONST(FV1, CH3__v * IDEN__v)   /* diagnostic only: f_v1 frozen under differentiation */
+#endif
+#define FS_MUT \
+  JMUL(RN_, RHO, NU); JSCALE(CHI, vinv(mu), RN_); JMUL(CH2_, CHI, CHI); JMUL(CH3_, CH2_, CHI); \
+  JADDC(DEN_, CH3_, c_v1 * c_v1 * c_v1); JINV(IDEN_, DEN_); FS_FV1JET; JMUL(MUT, RN_, FV1); JADDC(MUE, MUT, mu)
+/* stress components and the derivatives the operators need (2-D: W = 0) */
+#define FS_STRESS \
+  Sc txx_v = MUE_v * (LIT(4, 3) * U_x - LIT(2, 3) * V_y); \
+  Sc txx_x = MUE_x * (LIT(4, 3) * U_x - LIT(2, 3) * V_y) + MUE_v * (LIT(4, 3) * U_xx - LIT(2, 3) * V_xy); \
+  Sc tyy_v = MUE_v * (LIT(4, 3) * V_y - LIT(2, 3) * U_x); \
+  Sc tyy_y = MUE_y * (LIT(4, 3) * V_y - LIT(2, 3) * U_x) + MUE_v * (LIT(4, 3) * V_yy - LIT(2, 3) * U_xy); \
+  Sc txy_v = MUE_v * (U_y + V_x); \
+  Sc txy_x = MUE_x * (U_y + V_x) + MUE_v * (U_xy + V_xx); \
+  Sc txy_y = MUE_y * (U_y + V_x) + MUE_v * (U_yy + V_xy)
+
+static Sc fs_exact_nu(Sc x, Sc y, Sc t) { FS_FIELDS; return NU_v; }
+static Sc fs_q_rho(Sc x, Sc y, Sc t) { FS_FIELDS; EULER_OPERATORS; return op_mass; }
+static Sc fs_q_rho_u(Sc x, Sc y, Sc t) { FS_FIELDS; EULER_OPERATORS; FS_MUT; FS_STRESS; return op_xmom - (txx_x + txy_y); }
+static Sc fs_q_rho_v(Sc x, Sc y, Sc t) { FS_FIELDS; EULER_OPERATORS; FS_MUT; FS_STRESS; return op_ymom - (txy_x + tyy_y); }
+static Sc fs_q_rho_e(Sc x, Sc y, Sc t)
+{
+  FS_FIELDS; EULER_OPERATORS; FS_MUT; FS_STRESS;
+  /* viscous work div(tau.u) */
+  Sc work = (txx_x * U_v + txx_v * U_x + txy_x * V_v + txy_v * V_x) + (txy_y * U_v + txy_v * U_y + tyy_y * V_v + tyy_v * V_y);
+  /* heat flux q = -KAP grad T, KAP = c_p (mu/Pr + mu_t/Pr_t), T = P/(RHO R) */
+  Sc cv_ = R * vinv(Gamma - 1), cp_ = Gamma * cv_;
+  JINV(IR_, RHO); JMUL(PIR_, P, IR_); JSCALE(TT, vinv(R), PIR_);
+  Sc kt_ = cp_ * vinv(Pr_t), kl_ = cp_ * mu * vinv(Pr);
+  JSCALE(KT_, kt_, MUT); JADDC(KAP, KT_, kl_);
+  Sc divq = -((KAP_x * TT_x + KAP_v * TT_xx) + (KAP_y * TT_y + KAP_v * TT_yy));
+#ifdef FS_DIAG_ET   /* diagnostic only: the time term as the code has it (T frozen in time) */
+  return op_energy - RET__t + (cv_ * TT_v * RHO_t + KE__v * RHO_t + RHO_v * (U_v * U_t + V_v * V_t)) - work + divq;
+#else
+  return op_energy - work + divq;
+#endif
+}
+static Sc fs_q_nu(Sc x, Sc y, Sc t)
+{
+  FS_FIELDS; JMUL(RN_, RHO, NU); JMUL(RNU_, RN_, U); JMUL(RNV_, RN_, V);
+  Sc conv = RN__t + RNU__x + RNV__y;
+  Sc OM = U_y - V_x;                                   /* vorticity; S = |OM| = sqrt(OM^2) */
+  Sc S = vsqrt(OM * OM);
+  JADDC(DIF_, RN_, mu);
+  Sc diff = (DIF__x * NU_x + DIF__v * NU_xx) + (DIF__y * NU_y + DIF__v * NU_yy);
+  Sc gsq = NU_x * NU_x + NU_y * NU_y;
+  return conv - c_b1 * S * RN__v - vinv(sigma) * (diff + c_b2 * RHO_v * gsq);
+}
+/* the two-argument exact evaluators: the fields at t = 0 (cos 0 = 1, sin 0 = 0 written out: the UFs do not know them) */
+#define FS_STEADY(r, JFX, ax, aax, JFY, ay, aay, c0) ROY_X(r##x_, JFX, ax, aax); ROY_Y(r##y_, JFY, ay, aay); JSUM3(r, c0, r##x_, r##y_)
+static Sc fs_exact_u0(Sc x, Sc y) { Sc z = 0, t = 0; FS_STEADY(U, JSIN, u_x, a_ux, JCOS, u_y, a_uy, u_0 + u_t); return U_v; }
+static Sc fs_exact_v0(Sc x, Sc y) { Sc z = 0, t = 0; FS_STEADY(V, JCOS, v_x, a_vx, JSIN, v_y, a_vy, v_0); return V_v; }
+static Sc fs_exact_p0(Sc x, Sc y) { Sc z = 0, t = 0; FS_STEADY(P, JCOS, p_x, a_px, JSIN, p_y, a_py, p_0 + p_t); return P_v; }
+static Sc fs_exact_rho0(Sc x, Sc y) { Sc z = 0, t = 0; FS_STEADY(RHO, JSIN, rho_x, a_rhox, JCOS, rho_y, a_rhoy, rho_0); return RHO_v; }
+
+#define FS_REQ REQ(VF_PI_OK)
+#define FSC(f) fans_sa_transient_free_shear__##f
+#define CONTRACT_fans_sa_transient_free_shear__eval_exact_nu_3  FS_REQ ENS_EQ(fs_exact_nu(x, y, t)) FRAME()
+#define CONTRACT_fans_sa_transient_free_shear__eval_q_rho_3     FS_REQ ENS_EQ(fs_q_rho(x, y, t)) FRAME()
+#define CONTRACT_fans_sa_transient_free_shear__eval_q_rho_u_3   FS_REQ ENS_EQ(fs_q_rho_u(x, y, t)) FRAME()
+#define CONTRACT_fans_sa_transient_free_shear__eval_q_rho_v_3   FS_REQ ENS_EQ(fs_q_rho_v(x, y, t)) FRAME()
+#define CONTRACT_fans_sa_transient_free_shear__eval_q_rho_e_3   FS_REQ ENS_EQ(fs_q_rho_e(x, y, t)) FRAME()
+#define CONTRACT_fans_sa_transient_free_shear__eval_q_nu_3      REQ(VF_PI_OK && PI > 0) ENS_EQ(fs_q_nu(x, y, t)) FRAME()
+/* two-argument (steady) forms == three-argument forms at t = 0 (the right-hand side is the extracted code itself) */
+#define CONTRACT_fans_sa_transient_free_shear__eval_exact_nu_2  REQ(1) ENS_EQ(FSC(eval_exact_nu_3)(x, y, LIT(0, 1))) FRAME()
+#define CONTRACT_fans_sa_transient_free_shear__eval_q_rho_2     REQ(1) ENS_EQ(FSC(eval_q_rho_3)(x, y, LIT(0, 1))) FRAME()
+#define CONTRACT_fans_sa_transient_free_shear__eval_q_rho_u_2   REQ(1) ENS_EQ(FSC(eval_q_rho_u_3)(x, y, LIT(0, 1))) FRAME()
+#define CONTRACT_fans_sa_transient_free_shear__eval_q_rho_v_2   REQ(1) ENS_EQ(FSC(eval_q_rho_v_3)(x, y, LIT(0, 1))) FRAME()
+#define CONTRACT_fans_sa_transient_free_shear__eval_q_rho_e_2   REQ(1) ENS_EQ(FSC(eval_q_rho_e_3)(x, y, LIT(0, 1))) FRAME()
+#define CONTRACT_fans_sa_transient_free_shear__eval_q_nu_2      REQ(1) ENS_EQ(FSC(eval_q_nu_3)(x, y, LIT(0, 1))) FRAME()
+#define CONTRACT_fans_sa_transient_free_shear__eval_exact_u_2   FS_REQ ENS_EQ(fs_exact_u0(x, y)) FRAME()
+#define CONTRACT_fans_sa_transient_free_shear__eval_exact_v_2   FS_REQ ENS_EQ(fs_exact_v0(x, y)) FRAME()
+#define CONTRACT_fans_sa_transient_free_shear__eval_exact_p_2   FS_REQ ENS_EQ(fs_exact_p0(x, y)) FRAME()
+#define CONTRACT_fans_sa_transient_free_shear__eval_exact_rho_2 FS_REQ ENS_EQ(fs_exact_rho0(x, y)) FRAME()
+#endif
+
+/* ====================================================================================================== */
+#if defined(UNIT_fans_sa_steady_wall_bounded)
+/* Steady FANS + SA over a flat plate (wall distance d = y), p = p_0 constant, rho = p_0/(R T):
+ *   Q_rho   = div(rho u)
+ *   Q_rho_u = div(rho u u) + p_x - div(tau)_x,  Q_rho_v likewise          (p_x = p_y = 0)
+ *   Q_rho_e = div(rho u H) - div(tau.u) + div(q),  H = c_p T + |u|^2/2, q = -c_p (mu/Pr + mu_t/Pr_t) grad T, c_p = Gamma R/(Gamma-1)
+ *   Q_nu    = div(rho u nu) - c_b1 S_sa rho nu + c_w1 f_w rho (nu/d)^2 - (1/sigma)[ div((mu + rho nu) grad nu) + c_b2 rho |grad nu|^2 ]
+ * tau = (mu + mu_t)(grad u + grad u^T - 2/3 div u I), mu_t = rho nu f_v1(chi) differentiated through rho, nu and f_v1(chi).
+ * S_sa = Omega + Sm, Omega = |u_y - v_x|, Sm_orig = nu f_v2/(kappa^2 d^2),
+ *   Sm = Sm_orig if -c_v2 Omega <= Sm_orig, else Omega (c_v2^2 Omega + c_v3 Sm_orig)/((c_v3 - 2 c_v2) Omega - Sm_orig);
+ * r = nu/(S_sa kappa^2 d^2), g = r + c_w2 (r^6 - r), f_w = g ((1 + c_w3^6)/(g^6 + c_w3^6))^(1/6), c_w1 = c_b1/kappa^2 + (1+c_b2)/sigma.
+ * Exact fields (van Driest-transformed boundary layer; returned by eval_exact_u/v/t/rho/nu/p):
+ *   u_inf = M_inf sqrt(Gamma R T_inf), T_aw = T_inf (1 + r_T (Gamma-1) M_inf^2/2), A = sqrt(1 - T_inf/T_aw), F_c = (T_aw/T_inf - 1)/asin(A)^2,
+ *   Re_x = rho_inf u_inf x/mu, c_f = C_cf/F_c (Re_x/F_c)^(-1/7), u_tau = u_inf sqrt(c_f/2), y+ = y u_tau/nu_w, nu_w = mu/rho_w,
+ *   u_eq+ = log(1 + kappa y+)/kappa + C1 (1 - exp(-y+/eta1) - (y+/eta1) exp(-y+ b)), C1 = -log(kappa)/kappa + C, u_eq = u_tau u_eq+,
+ *   U = (u_inf/A) sin(A u_eq/u_inf), V = eta_v u_tau y/(14 x), T = T_inf (1 + r_T (Gamma-1) M_inf^2 (1 - U^2/u_inf^2)/2),
+ *   RHO = p_0/(R T), NU = kappa u_tau y - alpha y^2.
+ * Jet rules local to this unit (b > 0): the non-integer power is differentiated in the logarithmic form
+ *   (b^e)' = e b^e b'/b, (b^e)'' = e b^e b''/b + e (e-1) b^e b'^2/b^2   -- the textbook rule e b^(e-1) with b^(e-1) written b^e/b;
+ * that rewriting is a power law the UF axioms of real.h do not contain, so it is part of this spec's trusted jet rules. */
+/* CBMC 6.11 crashes (simplifier invariant, std_expr.cpp operator==) when a NEGATIVE NON-INTEGER rational constant held in a local
+ * (-1/7, -1/4, ...) becomes a factor of a product.  In this unit spec-side rational constants are therefore written n*inv(d) with the
+ * reciprocal UF (inv(d)*d == 1 makes them the same numbers; they are just not constant-folded). */
+#define WQ(n, d) ((n) * vinv(d))
+#define JPOWLOG(r, a, e) Sc r##_e = (e); Sc r##_p = vpow(a##_v, r##_e); Sc r##_ia = vinv(a##_v); Sc r##_d1 = r##_e * r##_p * r##_ia; Sc r##_d2 = r##_e * (r##_e - 1) * r##_p * r##_ia * r##_ia; \
+  JCHAIN(r, a, r##_p, r##_d1, r##_d2)
+/* JSQRT of jets.h with its literal factors bound to locals first (same rule): many jets of this unit have components that constant-fold
+   to 0 (x-only / y-only dependence) and `LIT() * 0` inside one expression trips a CBMC 6.11 simplifier invariant (std_expr.cpp) */
+#define JSQRTH(r, a) Sc r##_q = vsqrt(a##_v); Sc r##_qi = vinv(r##_q); Sc r##_h = WQ(1, 2), r##_f = WQ(1, 4); Sc r##_d1 = r##_h * r##_qi; Sc r##_d2 = -r##_f * r##_qi * r##_qi * r##_qi; \
+  JCHAIN(r, a, r##_q, r##_d1, r##_d2)
+#define JMONO(r, val, ea, eb) Sc r##_a = (ea), r##_b = (eb); Sc r##_ix = vinv(x), r##_iy = vinv(y); JD(r); r##_v = (val); \
+  r##_x = r##_a * r##_v * r##_ix; r##_y = r##_b * r##_v * r##_iy; r##_z = 0; r##_t = 0; \
+  r##_xx = r##_a * (r##_a - 1) * r##_v * r##_ix * r##_ix; r##_yy = r##_b * (r##_b - 1) * r##_v * r##_iy * r##_iy; r##_xy = r##_a * r##_b * r##_v * r##_ix * r##_iy; \
+  r##_zz = 0; r##_xz = 0; r##_yz = 0
+#define JMONOX(r, val, ea) Sc r##_a = (ea); Sc r##_ix = vinv(x); JD(r); r##_v = (val); \
+  r##_x = r##_a * r##_v * r##_ix; r##_y = 0; r##_z = 0; r##_t = 0; \
+  r##_xx = r##_a * (r##_a - 1) * r##_v * r##_ix * r##_ix; r##_yy = 0; r##_xy = 0; r##_zz = 0; r##_xz = 0; r##_yz = 0
+/* constants of the solution (functions of the registered parameters only) */
+#define WB_CONSTS \
+  Sc k_uinf = M_inf * vsqrt(Gamma * R * T_inf); \
+  Sc k_rhoinf = p_0 * vinv(R) * vinv(T_inf); \
+  Sc k_Taw = T_inf * (1 + r_T * (Gamma - 1) * M_inf * M_inf * WQ(1, 2)); \
+  Sc k_rhow = p_0 * vinv(R) * vinv(k_Taw); \
+  Sc k_A = vsqrt(1 - T_inf * vinv(k_Taw)); \
+  Sc k_asin = vasin(k_A); Sc k_iasin = vinv(k_asin); \
+  Sc k_Fc = (k_Taw * vinv(T_inf) - 1) * k_iasin * k_iasin; \
+  Sc k_nuw = mu * vinv(k_rhow); \
+  Sc k_C1 = -vinv(kappa) * vlog(kappa) + C; \
+  Sc k_cp = Gamma * R * vinv(Gamma - 1); \
+  Sc k_cw1 = c_b1 * vinv(kappa) * vinv(kappa) + (1 + c_b2) * vinv(sigma)
+/* u_eq+ as a function of a jet YPJ of y+ (used twice: along (x,y), and along y+ itself for d u_eq+/d y+) */
+#define WB_UEP(r, YPJ) \
+  JSCALE(r##a_, kappa, YPJ); JADDC(r##b_, r##a_, 1); JLOG(r##lg_, r##b_); \
+  Sc r##k1_ = -vinv(eta1), r##k2_ = -b; \
+  JSCALE(r##e1a_, r##k1_, YPJ); JEXP(r##e1_, r##e1a_); JSCALE(r##e2a_, r##k2_, YPJ); JEXP(r##e2_, r##e2a_); \
+  JMUL(r##ye_, YPJ, r##e2_); Sc r##k3_ = vinv(eta1), r##k4_ = vinv(kappa); JSCALE(r##t3_, r##k3_, r##ye_); \
+  JADD(r##s1_, r##e1_, r##t3_); JNEG(r##s2_, r##s1_); JADDC(r##s3_, r##s2_, 1); \
+  JSCALE(r##t1_, r##k4_, r##lg_); JSCALE(r##t2_, k_C1, r##s3_); JADD(r, r##t1_, r##t2_)
+/* all field jets at (x, y) */
+#define WB_JETS \
+  WB_CONSTS; Sc z = 0, t = 0; JVARX(JX, x); JVARY(JY, y); \
+  Sc k_re = k_rhoinf * k_uinf * vinv(mu); JSCALE(JRE, k_re, JX); Sc k_ifc = vinv(k_Fc); JSCALE(JB, k_ifc, JRE); \
+  Sc k_e7 = -WQ(1, 7); Sc k_cf = C_cf * k_ifc; Sc v_cf = k_cf * vpow(JB_v, k_e7); Sc v_ut = k_uinf * vsqrt(v_cf * WQ(1, 2)); \
+  Sc k_e14 = -WQ(1, 14); JMONOX(JCF, v_cf, k_e7); JMONOX(JUT, v_ut, k_e14); \
+  JMUL(JUY, JUT, JY); Sc k_inuw = vinv(k_nuw); JMONO(JYP, k_inuw * v_ut * y, k_e14, 1); \
+  WB_UEP(JUEP, JYP); JMUL(JUEQ, JUT, JUEP); \
+  Sc k_au = k_A * vinv(k_uinf), k_ua = k_uinf * vinv(k_A); Sc v_arg = k_au * JUEQ_v; Sc v_sn = vsin(v_arg), v_cs = vcos(v_arg); Sc v_u = k_ua * v_sn; JCHAIN(JU, JUEQ, v_u, v_cs, -k_au * k_au * v_u); \
+  Sc k_ev = eta_v * WQ(1, 14); Sc k_e1514 = -WQ(15, 14); JMONO(JV, k_ev * v_ut * y * vinv(x), k_e1514, 1); \
+  JMUL(JU2, JU, JU); Sc k_tc = r_T * (Gamma - 1) * M_inf * M_inf * WQ(1, 2); Sc k_iu2 = vinv(k_uinf) * vinv(k_uinf); \
+  Sc k_t1 = -T_inf * k_tc * k_iu2; JSCALE(JT1, k_t1, JU2); JADDC(JT, JT1, T_inf * (1 + k_tc)); \
+  JINV(JIT, JT); Sc k_pr = p_0 * vinv(R); JSCALE(JR, k_pr, JIT); \
+  JMUL(JY2, JY, JY); JSCALE(JN1, kappa, JUY); Sc k_ma = -alpha; JSCALE(JN2, k_ma, JY2); JADD(JN, JN1, JN2); \
+  JCONST(JW, 0); JCONST(JP, p_0)
+#define WB_MUT \
+  JMUL(JRN, JR, JN); Sc k_imu = vinv(mu); JSCALE(JCHI, k_imu, JRN); JMUL(JCH2, JCHI, JCHI); JMUL(JCH3, JCH2, JCHI); \
+  JADDC(JDEN, JCH3, c_v1 * c_v1 * c_v1); JINV(JIDEN, JDEN); JMUL(JFV1, JCH3, JIDEN); JMUL(JMUT, JRN, JFV1); JADDC(JMUE, JMUT, mu)
+/* SA closure values at (x,y) from the jets */
+#define WB_SA \
+  Sc s_om = JU_y - JV_x; Sc s_Omega = vsqrt(s_om * s_om); \
+  Sc s_fv2 = 1 - JCHI_v * vinv(1 + JCHI_v * JFV1_v); \
+  Sc s_ik2d2 = vinv(kappa) * vinv(kappa) * vinv(y) * vinv(y); \
+  Sc s_Smo = JN_v * s_ik2d2 * s_fv2; \
+  Sc s_Sm2 = s_Omega * (c_v2 * c_v2 * s_Omega + c_v3 * s_Smo) * vinv((c_v3 - 2 * c_v2) * s_Omega - s_Smo); \
+  Sc s_Sm = s_Smo; if (!(-c_v2 * s_Omega <= s_Smo)) s_Sm = s_Sm2; \
+  Sc s_S = s_Sm + s_Omega; \
+  Sc s_r = JN_v * vinv(s_S) * s_ik2d2; \
+  Sc s_g = s_r + c_w2 * (s_r * s_r * s_r * s_r * s_r * s_r - s_r); \
+  Sc s_c6 = c_w3 * c_w3 * c_w3 * c_w3 * c_w3 * c_w3; \
+  Sc s_fw = s_g * vpow((1 + s_c6) * vinv(s_g * s_g * s_g * s_g * s_g * s_g + s_c6), WQ(1, 6))
+
+/* admissible parameters and points (property quantifier): positive thermodynamic/flow parameters, x, y > 0 */
+#define WB_ADM (mu > 0 && R > 0 && p_0 > 0 && Pr > 0 && Pr_t > 0 && eta1 > 0 && kappa > 0 && sigma > 0 && c_v1 > 0 && T_inf > 0 && M_inf > 0 \
+                && r_T > 0 && Gamma > 1 && C_cf > 0 && b > 0 && x > 0 && y > 0)
+
+/* ---- update(x,y): every cached member == its defining expression of (x, y, registered parameters) ---- */
+#ifdef VF_NATIVE   /* native twin: tolerant comparison that reports the member (diagnostics / bounded stand-in only) */
+static int wb_close(const char *n, Sc a, Sc e) { Sc sc = fabsl(a) > fabsl(e) ? fabsl(a) : fabsl(e); if (sc < 1) sc = 1;
+  if (fabsl(a - e) <= 1e-9L * sc) return 1; printf("  MISMATCH %s: code %.15Lg spec %.15Lg\n", n, a, e); return 0; }
+#define WEQ(m, e) wb_close(#m, m, e)
+#define WAND &
+#else
+#define WEQ(m, e) ((m) == (e))
+#define WAND &&
+#endif
+static int wb_ok_consts(Sc x, Sc y)
+{
+  WB_CONSTS;
+  return WEQ(C1, k_C1) WAND WEQ(u_inf, k_uinf) WAND WEQ(rho_inf, k_rhoinf) WAND WEQ(T_aw, k_Taw) WAND WEQ(rho_w, k_rhow) WAND WEQ(A, k_A) WAND WEQ(F_c, k_Fc)
+      WAND WEQ(nu_w, k_nuw) WAND WEQ(cp, k_cp) WAND WEQ(c_w1, k_cw1) WAND WEQ(d, y);
+}
+static int wb_ok_fields(Sc x, Sc y)
+{
+  WB_JETS; WB_MUT;
+  return WEQ(Re_x, JRE_v) WAND WEQ(c_f, JCF_v) WAND WEQ(u_tau, JUT_v) WAND WEQ(y_plus, JYP_v) WAND WEQ(u_eq_plus, JUEP_v) WAND WEQ(u_eq, JUEQ_v)
+      WAND WEQ(U, JU_v) WAND WEQ(V, JV_v) WAND WEQ(T, JT_v) WAND WEQ(RHO, JR_v) WAND WEQ(NU_SA, JN_v) WAND WEQ(chi, JCHI_v) WAND WEQ(f_v1, JFV1_v) WAND WEQ(mu_t, JMUT_v);
+}
+static int wb_ok_sa(Sc x, Sc y)
+{
+  WB_JETS; WB_MUT; WB_SA;
+  return WEQ(Omega, s_Omega) WAND WEQ(f_v2, s_fv2) WAND WEQ(Sm_orig, s_Smo) WAND WEQ(Sm1, s_Smo) WAND WEQ(Sm2, s_Sm2) WAND WEQ(Sm, s_Sm) WAND WEQ(S_sa, s_S)
+      WAND WEQ(r, s_r) WAND WEQ(g, s_g) WAND WEQ(f_w, s_fw);
+}
+static int wb_ok_derivs(Sc x, Sc y)
+{
+  WB_JETS;
+  /* d u_eq+/d y+ : u_eq+ along its own argument */
+  JVARX(JQ, JYP_v); WB_UEP(JUQ, JQ);
+  return WEQ(d_ueqplus_yplus, JUQ_x)
+      WAND WEQ(D2ueqDx2, JUEQ_xx) WAND WEQ(D2ueqDy2, JUEQ_yy)
+      WAND WEQ(D2uDx2, JU_xx) WAND WEQ(D2uDy2, JU_yy) WAND WEQ(D2uDxy, JU_xy)
+      WAND WEQ(D2vDx2, JV_xx) WAND WEQ(D2vDy2, JV_yy) WAND WEQ(D2vDxy, JV_xy)
+      WAND WEQ(D2TDx2, JT_xx) WAND WEQ(D2TDy2, JT_yy);
+}
+#define WB_CACHE C1, u_inf, rho_inf, T_aw, rho_w, A, F_c, nu_w, Re_x, c_f, u_tau, u_eq_plus, y_plus, u_eq, U, V, T, RHO, NU_SA, chi, f_v1, mu_t, \
+  d_ueqplus_yplus, c_w1, d, Omega, Sm1, Sm, Sm2, Sm_orig, g, r, S_sa, cp, f_w, f_v2, \
+  D2ueqDx2, D2ueqDy2, D2uDx2, D2uDy2, D2vDxy, D2vDx2, D2vDy2, D2TDx2, D2TDy2, D2uDxy
+
+/* ---- exact fields and sources ---- */
+static Sc wb_exact_u(Sc x, Sc y) { WB_JETS; return JU_v; }
+static Sc wb_exact_v(Sc x, Sc y) { WB_JETS; return JV_v; }
+static Sc wb_exact_t(Sc x, Sc y) { WB_JETS; return JT_v; }
+static Sc wb_exact_rho(Sc x, Sc y) { WB_JETS; return JR_v; }
+static Sc wb_exact_nu(Sc x, Sc y) { WB_JETS; return JN_v; }
+/* (EULER_OPERATORS of roy.h wants jets named RHO,U,V,W,P; U,V,RHO,T are cached members here, so the operators are written out on J-prefixed jets) */
+#define WB_STRESS \
+  Sc c43 = WQ(4, 3), c23 = WQ(2, 3); \
+  Sc txx_v = JMUE_v * (c43 * JU_x - c23 * JV_y); \
+  Sc txx_x = JMUE_x * (c43 * JU_x - c23 * JV_y) + JMUE_v * (c43 * JU_xx - c23 * JV_xy); \
+  Sc tyy_v = JMUE_v * (c43 * JV_y - c23 * JU_x); \
+  Sc tyy_y = JMUE_y * (c43 * JV_y - c23 * JU_x) + JMUE_v * (c43 * JV_yy - c23 * JU_xy); \
+  Sc txy_v = JMUE_v * (JU_y + JV_x); \
+  Sc txy_x = JMUE_x * (JU_y + JV_x) + JMUE_v * (JU_xy + JV_xx); \
+  Sc txy_y = JMUE_y * (JU_y + JV_x) + JMUE_v * (JU_yy + JV_xy)
+#define WB_CONV JMUL(JRU, JR, JU); JMUL(JRV, JR, JV); JMUL(JRUU, JRU, JU); JMUL(JRUV, JRU, JV); JMUL(JRVV, JRV, JV)
+static Sc wb_q_rho(Sc x, Sc y) { WB_JETS; WB_CONV; return JRU_x + JRV_y; }
+static Sc wb_q_rho_u(Sc x, Sc y) { WB_JETS; WB_CONV; WB_MUT; WB_STRESS; return JRUU_x + JRUV_y + JP_x - (txx_x + txy_y); }
+static Sc wb_q_rho_v(Sc x, Sc y) { WB_JETS; WB_CONV; WB_MUT; WB_STRESS; return JRUV_x + JRVV_y + JP_y - (txy_x + tyy_y); }
+static Sc wb_q_rho_e(Sc x, Sc y)
+{
+  WB_JETS; WB_CONV; WB_MUT; WB_STRESS;
+  /* rho H = rho c_p T + rho |u|^2/2 */
+  JMUL(JUU, JU, JU); JMUL(JVV, JV, JV); JADD(JQ2, JUU, JVV); Sc k_h = WQ(1, 2); JSCALE(JKE, k_h, JQ2);
+  JSCALE(JCT, k_cp, JT); JADD(JH, JCT, JKE); JMUL(JRUH, JRU, JH); JMUL(JRVH, JRV, JH);
+  Sc work = (txx_x * JU_v + txx_v * JU_x + txy_x * JV_v + txy_v * JV_x) + (txy_y * JU_v + txy_v * JU_y + tyy_y * JV_v + tyy_v * JV_y);
+  Sc kt_ = k_cp * vinv(Pr_t), kl_ = k_cp * mu * vinv(Pr);
+  JSCALE(JKT, kt_, JMUT); JADDC(JKAP, JKT, kl_);
+  Sc divq = -((JKAP_x * JT_x + JKAP_v * JT_xx) + (JKAP_y * JT_y + JKAP_v * JT_yy));
+  return JRUH_x + JRVH_y - work + divq;
+}
+static Sc wb_q_nu(Sc x, Sc y)
+{
+  WB_JETS; WB_MUT; WB_SA;
+  JMUL(JRNU, JRN, JU); JMUL(JRNV, JRN, JV);
+  Sc conv = JRNU_x + JRNV_y;
+  JADDC(JDIF, JRN, mu);
+  Sc diff = (JDIF_x * JN_x + JDIF_v * JN_xx) + (JDIF_y * JN_y + JDIF_v * JN_yy);
+  Sc gsq = JN_x * JN_x + JN_y * JN_y;
+  Sc nd = JN_v * vinv(y);
+  return conv - c_b1 * s_S * JRN_v + k_cw1 * s_fw * JR_v * nd * nd - vinv(sigma) * (diff + c_b2 * JR_v * gsq);
+}
+#define WB_REQ REQ(WB_ADM)
+#define WB_UPDATE_CONTRACT WB_REQ ENS(RET == 0) ENS(wb_ok_consts(x, y)) ENS(wb_ok_fields(x, y)) ENS(wb_ok_sa(x, y)) ENS(wb_ok_derivs(x, y)) FRAME(WB_CACHE)
+#define CONTRACT_fans_sa_steady_wall_bounded__update_2         WB_UPDATE_CONTRACT
+#define CONTRACT_fans_sa_steady_wall_bounded__eval_exact_u_2   WB_REQ ENS_EQ(wb_exact_u(x, y)) FRAME(WB_CACHE)
+#define CONTRACT_fans_sa_steady_wall_bounded__eval_exact_v_2   WB_REQ ENS_EQ(wb_exact_v(x, y)) FRAME(WB_CACHE)
+#define CONTRACT_fans_sa_steady_wall_bounded__eval_exact_t_2   WB_REQ ENS_EQ(wb_exact_t(x, y)) FRAME(WB_CACHE)
+#define CONTRACT_fans_sa_steady_wall_bounded__eval_exact_rho_2 WB_REQ ENS_EQ(wb_exact_rho(x, y)) FRAME(WB_CACHE)
+#define CONTRACT_fans_sa_steady_wall_bounded__eval_exact_nu_2  WB_REQ ENS_EQ(wb_exact_nu(x, y)) FRAME(WB_CACHE)
+#define CONTRACT_fans_sa_steady_wall_bounded__eval_exact_p_2   WB_REQ ENS_EQ(p_0) FRAME(WB_CACHE)
+#define CONTRACT_fans_sa_steady_wall_bounded__eval_q_rho_2     WB_REQ ENS_EQ(wb_q_rho(x, y)) FRAME(WB_CACHE)
+#define CONTRACT_fans_sa_steady_wall_bounded__eval_q_rho_u_2   WB_REQ ENS_EQ(wb_q_rho_u(x, y)) FRAME(WB_CACHE)
+#define CONTRACT_fans_sa_steady_wall_bounded__eval_q_rho_v_2   WB_REQ ENS_EQ(wb_q_rho_v(x, y)) FRAME(WB_CACHE)
+#define CONTRACT_fans_sa_steady_wall_bounded__eval_q_rho_e_2   WB_REQ ENS_EQ(wb_q_rho_e(x, y)) FRAME(WB_CACHE)
+#define CONTRACT_fans_sa_steady_wall_bounded__eval_q_nu_2      WB_REQ ENS_EQ(wb_q_nu(x, y)) FRAME(WB_CACHE)
+#endif
+
+#include "sa_bounded.h"
